@@ -118,10 +118,15 @@ def shards(tier, seed):
             items.append({"what": "tiny", "len": 6, "part": p, "parts": 32, "geos": [0, 2, 5, 7]})
         for i in range(16):
             items.append({"what": "program", "n": 700, "seed": seed * 1000 + 50 + i})
+    for i in range(2 if tier == "quick" else 8):
+        items.append({"what": "machine", "n": 60 if tier == "quick" else 800, "seed": seed * 1000 + 900 + i})
     return items
 
 
 def run_shard(item, stats):
+    if item.get("what") == "machine":
+        from vf import machines
+        return machines.machine_search(machines.cache_machine(stats, ('accounting',), 'c09', True), stats, item["n"], item["seed"])
     km = core.known_matcher(ID, globals().get("known_match"))
     w = item["what"]
     if w == "history":
